@@ -315,3 +315,24 @@ impl<P: Canon> Canon for darling::ast::Generics<P> {
         )
     }
 }
+
+macro_rules! canon_withorig {
+    ($($o:ty),*) => {$(
+        impl<T: Canon> Canon for WithOriginal<T, $o> {
+            fn canon(&self) -> Sx {
+                tagged("withorig", vec![self.parsed.canon(), st(toks(&self.original))])
+            }
+        }
+    )*};
+}
+canon_withorig!(syn::Field, syn::Variant, syn::Generics, syn::TypeParam);
+impl Canon for syn::Field {
+    fn canon(&self) -> Sx {
+        tagged("toks", vec![st(toks(self))])
+    }
+}
+impl Canon for syn::Variant {
+    fn canon(&self) -> Sx {
+        tagged("toks", vec![st(toks(self))])
+    }
+}
